@@ -23,6 +23,8 @@
 #define ALN_WRAP_IMPORT
 #include "aln_wrap.h"
 
+#include "kalign_verif.h"
+
 
 int kalign(char **seq, int *len, int numseq,int n_threads, int type, float gpo, float gpe, float tgpe, char ***aligned, int *out_aln_len)
 {
@@ -51,8 +53,10 @@ int kalign_run(struct msa *msa, int n_threads, int type, float gpo, float gpe, f
 {
         struct aln_tasks* tasks = NULL;
         struct aln_param* ap = NULL;
+        KV_HOOK(kv_run_begin(msa, n_threads, type, gpo, gpe, tgpe));
         /* This also adds the ranks of the sequences !  */
         RUN(kalign_essential_input_check(msa, 0));
+        KV_HOOK(kv_ranked(msa));
 
         /* If already aligned unalign ! */
         if(msa->aligned != ALN_STATUS_UNALIGNED){
@@ -60,6 +64,7 @@ int kalign_run(struct msa *msa, int n_threads, int type, float gpo, float gpe, f
         }
         /* Make sure sequences are in order  */
         RUN(msa_sort_len_name(msa));
+        KV_HOOK(kv_sorted(msa));
 
         /* Convert into internal representation  */
         if(msa->biotype == ALN_BIOTYPE_DNA){
@@ -105,6 +110,7 @@ int kalign_run(struct msa *msa, int n_threads, int type, float gpo, float gpe, f
                            gpo,
                            gpe,
                            tgpe));
+        KV_HOOK(kv_params(ap, msa->biotype));
 
 
         DECLARE_TIMER(t1);
@@ -118,6 +124,7 @@ int kalign_run(struct msa *msa, int n_threads, int type, float gpo, float gpe, f
         msa->aligned = ALN_STATUS_ALIGNED;
 
         RUN(finalise_alignment(msa));
+        KV_HOOK(kv_final(msa));
 
 
 
@@ -136,9 +143,11 @@ int kalign_run(struct msa *msa, int n_threads, int type, float gpo, float gpe, f
 
         aln_param_free(ap);
         free_tasks(tasks);
+        KV_HOOK(kv_run_end(msa, OK));
         return OK;
 ERROR:
         aln_param_free(ap);
         free_tasks(tasks);
+        KV_HOOK(kv_run_end(msa, FAIL));
         return FAIL;
 }
